@@ -23,7 +23,6 @@ DECIDING_REQUIRED = ('requests_dispatched', 'handlers_run_checked', 'gate_reject
                      'bystanders_checked')
 EXHAUSTIVE_GENS = ()
 BUDGET_S = {'quick': 100, 'thorough': 2400}
-CASE_WALL_LIMIT = {'quick': 60, 'thorough': 300}
 
 TYPES = ('rr', 'stream', 'channel', 'fnf', 'push')
 SIGS = ('()', '(payload)', '(p: Payload)', '(composite_metadata)', '(cm: CompositeMetadata)', '(payload, composite_metadata)')
